@@ -3,7 +3,10 @@ INVARIANT AckedAtLeastInitial
 POSTCONDITION Accepted
 CHECK_DEADLOCK FALSE
 CONSTANTS
-  Resolvers = {"r1", "r2", "r3", "rf"}
+  Resolvers = {"r1", "r2", "r3", "rfa", "rfb"}
+  Keys = {"a", "b"}
+  RKey <- T_RKey
+  PKey <- T_PKey
   Publishers = {"p1", "p2"}
   VerOf <- T_VerOf
   TsOf <- T_TsOf
